@@ -268,6 +268,9 @@ def ld_same(c, obs, nobs):
         gb = [ch.get(off + i, 0xA5) for i in range(size)]
         nb = [nch.get(off + i, 0xA5) for i in range(size)]
         if info.res == 'l':
+            # bytes 10..15 of the 16-byte long double slot are padding, not value: a store may or may not write them
+            ch = {o: v for o, v in ch.items() if not off + 10 <= o < off + 16}
+            nch = {o: v for o, v in nch.items() if not off + 10 <= o < off + 16}
             if ld_isnan(gb) and ld_isnan(nb):
                 ch = {o: v for o, v in ch.items() if not off <= o < off + size}
                 nch = {o: v for o, v in nch.items() if not off <= o < off + size}
